@@ -77,13 +77,134 @@ class PyRepo:
                     self.early_accepts = []
                 self.early_accepts += [(rel, c, m, n) for c, m, n in worklist_to_recursion(tree)]
                 self.modules[rel] = self._index(rel, path, tree, src)
+        self._materialise_installed_methods()
+        self._dissolve_delegating_methods()
+        self._specialise_self_dispatch()
+        self._pull_down_template_methods()
         # positional fields of dataclasses (for `case C(a, b)` patterns)
         from . import pyeval
         pyeval.register_match_fields({c.name: [n for n, _t in c.fields] for m in self.modules.values() for c in m.classes.values()
                                       if any(d.startswith('dataclass') for d in c.decorators)})
-        self._dissolve_delegating_methods()
-        self._specialise_self_dispatch()
-        self._pull_down_template_methods()
+
+    def _materialise_installed_methods(self) -> None:
+        """Methods installed after the class statement from a literal table,
+
+            for name, label in TABLE.items():  /  for name in NAMES:
+                setattr(C, name, make(name, label, <constants>))
+
+        with `make` a module-level factory whose body defines one inner function, optionally sets its `__name__`, and returns it -
+        bare or wrapped as `DECO(inner)` / `C.deco(args)(inner)` - are entered as methods of C: one copy of the inner function per
+        table row, the factory's parameters replaced by the row's constants, the wrapper as its decorator.  Rules that read `C.m`
+        then see the same code whether the project spells the methods out or generates them.  Anything else that installs
+        attributes on a class at import time is recorded in `self.dynamic_installs` (rules that enumerate methods refuse to decide
+        on such a class)."""
+        import copy
+        from .constfold import NotConstant, fold
+        self.dynamic_installs = []
+        self.materialised = 0
+        for mname, mi in self.modules.items():
+            consts = {}
+            for st in mi.tree.body:
+                if isinstance(st, (ast.Assign, ast.AnnAssign)) and st.value is not None:
+                    t = st.targets[0] if isinstance(st, ast.Assign) else st.target
+                    if isinstance(t, ast.Name):
+                        try:
+                            consts[t.id] = fold(st.value, consts=consts)
+                        except (NotConstant, Exception):  # noqa: BLE001
+                            pass
+            for st in mi.tree.body:
+                calls = [c for c in ast.walk(st) if isinstance(c, ast.Call) and isinstance(c.func, ast.Name) and c.func.id == 'setattr'
+                         and len(c.args) == 3 and isinstance(c.args[0], ast.Name) and c.args[0].id in mi.classes] \
+                    if not isinstance(st, (ast.FunctionDef, ast.ClassDef)) else []
+                for c in calls:
+                    ci = mi.classes[c.args[0].id]
+                    done = False
+                    single = isinstance(st, ast.Expr) and st.value is c and isinstance(c.args[1], ast.Constant) and isinstance(c.args[1].value, str)
+                    if (single or isinstance(st, ast.For) and len(st.body) == 1 and isinstance(st.body[0], ast.Expr) and st.body[0].value is c) \
+                            and isinstance(c.args[2], ast.Call) and isinstance(c.args[2].func, ast.Name) and c.args[2].func.id in mi.functions:
+                        rows = None
+                        it = st.iter if not single else None
+                        # the table as written: rows of expressions (a dict display's keys and values, a tuple's elements)
+                        lits = {}
+                        for st0 in mi.tree.body:
+                            if isinstance(st0, (ast.Assign, ast.AnnAssign)) and st0.value is not None:
+                                t0 = st0.targets[0] if isinstance(st0, ast.Assign) else st0.target
+                                if isinstance(t0, ast.Name):
+                                    lits[t0.id] = st0.value
+
+                        def literal(e):
+                            return lits.get(e.id) if isinstance(e, ast.Name) else e
+                        if single:
+                            rows = [()]
+                        elif isinstance(it, ast.Call) and isinstance(it.func, ast.Attribute) and it.func.attr == 'items' and not it.args \
+                                and isinstance(literal(it.func.value), ast.Dict) and all(isinstance(k, ast.Constant) for k in literal(it.func.value).keys):
+                            d_ = literal(it.func.value)
+                            rows = [(k, v) for k, v in zip(d_.keys, d_.values)]
+                        elif isinstance(literal(it), (ast.Tuple, ast.List)) and not any(isinstance(x, ast.Starred) for x in literal(it).elts):
+                            rows = [tuple(x.elts) if isinstance(x, ast.Tuple) else (x,) for x in literal(it).elts]
+                        elif isinstance(literal(it), ast.Dict) and all(isinstance(k, ast.Constant) for k in literal(it).keys):
+                            rows = [(k,) for k in literal(it).keys]
+                        tg = [] if single else [t.id for t in (st.target.elts if isinstance(st.target, ast.Tuple) else [st.target]) if isinstance(t, ast.Name)]
+                        factory = mi.functions[c.args[2].func.id]
+                        fbody = [x for x in factory.body if not (isinstance(x, ast.Expr) and isinstance(x.value, ast.Constant))]
+                        inner = [x for x in fbody if isinstance(x, ast.FunctionDef)]
+                        ret = [x for x in fbody if isinstance(x, ast.Return)]
+                        other = [x for x in fbody if x not in inner and x not in ret
+                                 and not (isinstance(x, ast.Assign) and ast.unparse(x.targets[0]).endswith('.__name__'))]
+                        if rows is not None and (tg or single) and all(len(r) == len(tg) for r in rows) and len(inner) == 1 and len(ret) == 1 and not other \
+                                and (single or isinstance(c.args[1], ast.Name) and c.args[1].id in tg) and not c.args[2].keywords:
+                            fparams = [a.arg for a in factory.args.args]
+                            deco = None
+                            rv = ret[0].value
+                            if isinstance(rv, ast.Call) and len(rv.args) == 1 and isinstance(rv.args[0], ast.Name) and rv.args[0].id == inner[0].name:
+                                deco = rv.func
+                            elif not (isinstance(rv, ast.Name) and rv.id == inner[0].name):
+                                rows = None
+                            if rows is not None and len(c.args[2].args) == len(fparams):
+                                for row in rows:
+                                    env = dict(zip(tg, row))
+                                    bind = {}
+                                    okb = True
+                                    for p_, a_ in zip(fparams, c.args[2].args):
+                                        if isinstance(a_, ast.Name) and a_.id in env:
+                                            bind[p_] = env[a_.id]
+                                        elif isinstance(a_, ast.Constant):
+                                            bind[p_] = a_
+                                        else:
+                                            okb = False
+                                    if not okb:
+                                        rows = None
+                                        break
+
+                                    class S(ast.NodeTransformer):
+                                        def visit_Name(self, n):
+                                            if n.id in bind and isinstance(n.ctx, ast.Load):
+                                                return ast.copy_location(copy.deepcopy(bind[n.id]), n)
+                                            return n
+                                    g = S().visit(copy.deepcopy(inner[0]))
+                                    nm = c.args[1] if single else env[c.args[1].id]
+                                    if not (isinstance(nm, ast.Constant) and isinstance(nm.value, str)):
+                                        rows = None
+                                        break
+                                    g.name = nm.value
+                                    if deco is not None:
+                                        d2 = S().visit(copy.deepcopy(deco))
+                                        # `C.deco(args)` spelled inside the class body is `deco(args)`
+                                        if isinstance(d2, ast.Call) and isinstance(d2.func, ast.Attribute) and isinstance(d2.func.value, ast.Name) \
+                                                and d2.func.value.id == ci.name:
+                                            d2.func = ast.Name(id=d2.func.attr, ctx=ast.Load())
+                                        g.decorator_list = [d2] + list(g.decorator_list)
+                                    for n in ast.walk(g):
+                                        if hasattr(n, 'lineno'):
+                                            n.lineno = n.end_lineno = st.lineno
+                                    ast.fix_missing_locations(g)
+                                    ci.methods[g.name] = g
+                                    ci.node.body.append(g)
+                                    ci.virtual.append(g.name)
+                                    self.materialised += 1
+                                done = rows is not None
+                    if not done:
+                        self.dynamic_installs.append((mname, ci.name, c))
 
     def _dissolve_delegating_methods(self) -> None:
         """A method that is nothing but `return helper(<simple arguments>)` of a module-level function of its own module IS that
@@ -150,8 +271,9 @@ class PyRepo:
         import copy
         for mi in self.modules.values():
             for b in mi.classes.values():
-                if not b.bases or any(d.startswith('dataclass') for d in b.decorators):
+                if not b.bases:
                     continue
+                base_is_dc = any(d.startswith('dataclass') for d in b.decorators)
                 hooks = [m for m, g in b.methods.items()
                          if [type(st) for st in g.body if not (isinstance(st, ast.Expr) and isinstance(st.value, ast.Constant))] == [ast.Raise]
                          and 'NotImplementedError' in ast.unparse(g.body[-1])]
@@ -167,12 +289,39 @@ class PyRepo:
                 if any(isinstance(n, ast.Call) and isinstance(n.func, ast.Name) and n.func.id == b.name
                        for m2 in self.modules.values() for n in ast.walk(m2.tree)):
                     continue
+                if base_is_dc and any(set(f for f, _t in c.fields) & set(f for f, _t in b.fields) for c in subs):
+                    continue
                 b.abstract = True
                 for c in subs:
+                    if base_is_dc:
+                        # a dataclass inherits the fields of a dataclass base, in front of its own
+                        c.fields = list(b.fields) + list(c.fields)
                     for mname, g in b.methods.items():
-                        if mname in hooks or mname in c.methods or mname.startswith('__'):
+                        if mname in hooks or mname in c.methods or (mname.startswith('__') and not base_is_dc):
                             continue
-                        c.methods[mname] = ast.fix_missing_locations(copy.deepcopy(g))
+                        g2 = copy.deepcopy(g)
+                        # inside the copy the class of `self` is known: type(self) / cls (of a classmethod) is C
+                        is_cm = any(isinstance(d, ast.Name) and d.id == 'classmethod' for d in g2.decorator_list)
+                        first = g2.args.args[0].arg if g2.args.args else None
+
+                        class K(ast.NodeTransformer):
+                            def visit_Call(self, n):
+                                self.generic_visit(n)
+                                if isinstance(n.func, ast.Name) and n.func.id == 'type' and len(n.args) == 1 and isinstance(n.args[0], ast.Name) \
+                                        and n.args[0].id == first and not is_cm:
+                                    return ast.copy_location(ast.Name(id=c.name, ctx=ast.Load()), n)
+                                return n
+
+                            def visit_Name(self, n):
+                                if is_cm and n.id == first and isinstance(n.ctx, ast.Load):
+                                    return ast.copy_location(ast.Name(id=c.name, ctx=ast.Load()), n)
+                                return n
+                        g2 = K().visit(g2)
+                        if is_cm:
+                            g2.decorator_list = [ast.Name(id='staticmethod', ctx=ast.Load()) if isinstance(d, ast.Name) and d.id == 'classmethod' else d
+                                                 for d in g2.decorator_list]
+                            g2.args.args = g2.args.args[1:]
+                        c.methods[mname] = ast.fix_missing_locations(g2)
                         c.virtual.append(mname)
 
     def _specialise_self_dispatch(self) -> None:
@@ -565,3 +714,23 @@ def enclosing_def(tree: ast.AST, node: ast.AST):
         if isinstance(n, ast.FunctionDef) and n.lineno <= getattr(node, 'lineno', -1) <= getattr(n, 'end_lineno', n.lineno):
             best = n
     return best
+
+
+def helper_objects(py: 'PyRepo', ci):
+    """objects a class keeps for its own use: `self.<attr> = K(<args>)` in a method of the hierarchy (K a plain class of the same
+    package, not a dataclass) -> {attr: (ClassInfo of K, [argument expressions])}; an attribute bound to different classes is left out"""
+    out, clash = {}, set()
+    for c in py.mro(ci):
+        for g in c.methods.values():
+            for n in ast.walk(g):
+                if isinstance(n, (ast.Assign, ast.AnnAssign)) and n.value is not None and isinstance(n.value, ast.Call) \
+                        and isinstance(n.value.func, ast.Name):
+                    tgt = n.targets[0] if isinstance(n, ast.Assign) else n.target
+                    if isinstance(tgt, ast.Attribute) and isinstance(tgt.value, ast.Name) and tgt.value.id == 'self':
+                        k = py.find_class(n.value.func.id, c.module)
+                        if k is None or any(d.startswith('dataclass') for d in k.decorators) or '__init__' not in k.methods:
+                            continue
+                        if tgt.attr in out and out[tgt.attr][0] is not k:
+                            clash.add(tgt.attr)
+                        out[tgt.attr] = (k, list(n.value.args))
+    return {a: v for a, v in out.items() if a not in clash}
